@@ -1,5 +1,7 @@
 // C01-C05: recognition, single tree, all-parses DAG, cost flag, ambiguity flag.
 #include "props.hpp"
+#include <fcntl.h>
+#include <unistd.h>
 
 namespace vf {
 
@@ -398,4 +400,100 @@ extern const PropDef g_props_parse[] = {
 };
 extern const int g_nprops_parse = sizeof(g_props_parse) / sizeof(g_props_parse[0]);
 
+} // namespace vf
+
+// ================================================================= C09
+namespace vf {
+namespace {
+struct QuietStderr { // the library prints its debug output to stderr
+  int saved;
+  QuietStderr() { fflush(stderr); saved = dup(2); int dn = open("/dev/null", O_WRONLY); dup2(dn, 2); close(dn); }
+  ~QuietStderr() { fflush(stderr); dup2(saved, 2); close(saved); }
+};
+}
+static Case genC09(Choices &c, int tier) {
+  GramOpts o; o.errorPct = 30; o.ambiguityBias = 15;
+  Case cs = genParseCase(c, tier, "C09", o, 2, 60);
+  cs.par["one"] = c.flip();
+  cs.par["cost"] = c.chance(30);
+  cs.par["rec"] = c.chance(60);
+  cs.par["match"] = c.range(1, 4);
+  // one long input with repeated fragments (goto-set cache hits)
+  Gram g;
+  if (!cs.grams.empty() && toGram(cs.grams[0].raw, g) && classify(cs.grams[0].raw, cs.grams[0].strict).empty()) {
+    std::vector<int> ml = minLen(g);
+    std::vector<int> frag = genInputIdx(c, g, ml, 6, 0), frag2 = genInputIdx(c, g, ml, 4, 0);
+    std::vector<int> w;
+    int reps = c.range(3, tier ? 60 : 25);
+    for (int r = 0; r < reps && w.size() < (size_t)(tier ? 400 : 150); r++) { const std::vector<int> &f = c.chance(75) ? frag : frag2; w.insert(w.end(), f.begin(), f.end()); }
+    cs.inputs.push_back(toCodes(g, w));
+    cs.par["one"] = 1; // long inputs: a single tree is compared
+  }
+  return cs;
+}
+static Verdict runC09(const Case &cs) {
+  Verdict v; Ctx x;
+  if (!prep(cs, x, v)) return v;
+  int one = (int)cs.P("one", 1), cost = (int)cs.P("cost"), rec = (int)cs.P("rec"), match = (int)cs.P("match", 3);
+  const int las[] = {1, 0, 2, -7, 3, INT_MAX};
+  const int dbgs[] = {-1, 1, 2, 3, 4, 5, 6, 7};
+  for (auto &codes : cs.inputs) {
+    bool isLong = codes.size() > 30;
+    std::string base; bool baseH1 = false; long baseSets = -1; bool setsDiffer = false; long hits = 0;
+    auto runOne = [&](int la, int dbg, std::string &key, bool &h1, long &nsets) -> bool {
+      Binding *b = freshDefined(cs, v);
+      if (!b) return false;
+      Conf cf; cf.la = la; cf.one = one; cf.cost = cost; cf.rec = rec; cf.match = match; cf.dbg = dbg;
+      ParseOpts po; po.den_limit = isLong ? 50 : 3000;
+      yaep_verif.cache_check = 1; yaep_verif.track = 1; yaep_verif.rec_limit = 20000;
+      Outcome o;
+      { QuietStderr q; o = runParse(*b, codes, cf, po); }
+      yaep_verif.cache_check = 0; yaep_verif.track = 0;
+      v.parses++;
+      b->destroy(); delete b;
+      if (o.hook.rec_explosion) { v.labels.insert("excluded:F27-recovery-explosion"); key = "EXPLOSION"; return true; }
+      if (o.hook.n_mismatch) { v.fail("a reused (cached) Earley set differs from the set a fresh computation produces: " + std::to_string(o.hook.n_mismatch) + " of " + std::to_string(o.hook.n_hits) + " cache hits [" + cf.str() + " input=" + inputStr(codes) + "]"); return false; }
+      hits += o.hook.n_hits;
+      if (!o.tree.ok && o.rc == 0 && o.root) { v.fail("malformed tree: " + o.tree.problem + " [" + cf.str() + "]"); return false; }
+      key = o.tupleStr();
+      h1 = o.hook.n_reuse_of_copied > 0 || o.hook.n_skipped_origin > 0;
+      nsets = o.hook.n_sets;
+      return true;
+    };
+    if (!runOne(1, 0, base, baseH1, baseSets)) return v;
+    if (base == "EXPLOSION") continue;
+    auto compare = [&](int la, int dbg) -> bool {
+      std::string k; bool h1 = false; long ns = 0;
+      if (!runOne(la, dbg, k, h1, ns)) return false;
+      if (k == "EXPLOSION") return true;
+      if (ns != baseSets) setsDiffer = true;
+      if (k != base) {
+        if (!one && (h1 || baseH1) && kfListed("KF-C03-incomplete-dag")) { v.known = "KF-C03-incomplete-dag"; if (v.st == V_PASS) v.st = V_KNOWN; v.labels.insert("attributed:KF-C03-incomplete-dag"); return true; }
+        v.fail("outcome depends on lookahead/debug level: [la=" + std::to_string(la) + " dbg=" + std::to_string(dbg) + "] " + k + "   versus [la=1 dbg=0] " + base + " [one=" + std::to_string(one) + " cost=" + std::to_string(cost) + " rec=" + std::to_string(rec) + " match=" + std::to_string(match) + " input=" + inputStr(codes) + "]");
+        return false;
+      }
+      return true;
+    };
+    for (int i = 1; i < 6; i++) if (!compare(las[i], 0)) return v;
+    if (!isLong) { for (int d : dbgs) if (!compare(1, d)) return v; if (!compare(0, 4)) return v; if (!compare(2, 6)) return v; }
+    else { if (!compare(1, 1)) return v; }
+    if (hits > 0) { v.nontrivial = true; v.labels.insert("k:cache-hits-checked"); }
+    if (hits >= 10) v.labels.insert("k:cache-hits>=10");
+    if (hits >= 100) v.labels.insert("k:cache-hits>=100");
+    if (hits >= 1000) v.labels.insert("k:cache-hits>=1000");
+    if (setsDiffer) { v.nontrivial = true; v.labels.insert("k:lookahead-levels-build-different-sets"); }
+    if (isLong) v.labels.insert("k:long-input");
+  }
+  return v;
+}
+extern const PropDef g_props_c09[] = {
+    {"C09", genC09, runC09,
+     "random CFG (30% with `error' rules) x 2 short inputs x lookahead{-7,0,1,2,3,INT_MAX} x debug level{-1,0,...,7} (library chatter to "
+     "/dev/null) plus one input of up to 150 tokens (thorough 400) built from repeated sentence fragments x lookahead levels, with fixed "
+     "one_parse/cost/recovery/recovery_match per case; oracle: the outcome tuple (rc, every syntax_error argument, ambiguity flag, denoted trees "
+     "with costs) equals the one of lookahead 1 / debug 0; hook H2 recomputes the successor set on every goto-cache hit and demands the very "
+     "same (hash-consed) set. Non-trivial: >= 1 checked cache hit, or lookahead levels that build different numbers of sets.",
+     40},
+};
+extern const int g_nprops_c09 = 1;
 } // namespace vf
